@@ -26,6 +26,8 @@ import (
 var pureCallees = map[string]string{
 	"len": "builtin", "cap": "builtin", "panic": "builtin", "new": "alloc", "make": "alloc", "append": "alloc-or-fresh", "copy": "fresh-dst", "delete": "WRITE",
 	"fmt.Errorf": "pure", "fmt.Sprintf": "pure", "fmt.Sprint": "pure",
+	"google.golang.org/protobuf/encoding/protowire.EncodeZigZag": "pure", "google.golang.org/protobuf/encoding/protowire.DecodeZigZag": "pure",
+	"google.golang.org/protobuf/encoding/protowire.SizeVarint": "pure", "google.golang.org/protobuf/encoding/protowire.SizeBytes": "pure", "google.golang.org/protobuf/encoding/protowire.SizeTag": "pure",
 	"math.Signbit": "pure", "math.Float32bits": "pure", "math.Float64bits": "pure", "math.Float32frombits": "pure", "math.Float64frombits": "pure",
 	"sort.Slice": "fresh-arg0", "sort.SliceStable": "fresh-arg0", "sort.Strings": "fresh-arg0", "sort.Sort": "fresh-arg0", "sort.Ints": "fresh-arg0", "slices.Sort": "fresh-arg0",
 	"encoding/binary.littleEndian.PutUint32": "fresh-arg0", "encoding/binary.littleEndian.PutUint64": "fresh-arg0",
@@ -411,9 +413,47 @@ func (s *pureScan) call(t *ast.CallExpr) (handledChildren bool) {
 			return
 		}
 	}
+	// another helper of the repository's runtime package: its own body decides (analysed like a generated function: no
+	// store to memory reachable from its parameters or from package variables; it may call Sov, Soz and its like)
+	if f, ok := obj.(*types.Func); ok && f.Pkg() != nil && f.Pkg().Path() == core.RepoModule+"/runtime" && pureCtx != nil && s.depth <= 6 {
+		if rp := pureCtx.Pkg("runtime"); rp != nil {
+			fns := core.FuncDecls(rp)
+			if fd := fns[f.Name()]; fd != nil && fd.Body != nil && fd.Recv == nil {
+				sub := &pureScan{info: rp.TypesInfo, pkg: rp.Types, fresh: map[types.Object]bool{}, locals: map[types.Object]bool{}, byValue: map[types.Object]bool{}, fparams: map[types.Object]bool{}, depth: s.depth + 1}
+				sub.localFn = func(o types.Object) (*ast.FuncDecl, bool) {
+					lf, ok := o.(*types.Func)
+					if !ok || lf.Type().(*types.Signature).Recv() != nil {
+						return nil, false
+					}
+					d := fns[lf.Name()]
+					return d, d != nil && d.Body != nil
+				}
+				// named results are locals of the helper
+				if fd.Type.Results != nil {
+					for _, fl := range fd.Type.Results.List {
+						for _, nm := range fl.Names {
+							if o := rp.TypesInfo.ObjectOf(nm); o != nil {
+								sub.locals[o] = true
+							}
+						}
+					}
+				}
+				sub.scanFunc(fd.Type.Params, nil, fd.Body)
+				for _, p := range sub.probs {
+					s.probs = append(s.probs, q+": "+p)
+				}
+				for _, p := range sub.undec {
+					s.undec = append(s.undec, q+": "+p)
+				}
+				return
+			}
+		}
+	}
 	s.undec = append(s.undec, "call "+q+" is not in the effect summary table")
 	return
 }
+
+var pureCtx *core.Ctx
 
 // scanDecl analyses one function declaration.
 func scanDecl(g *model.GenPkg, fd *ast.FuncDecl) *pureScan {
@@ -451,6 +491,7 @@ var msgReadMethods = []string{"Descriptor", "Type", "New", "Interface", "Range",
 
 // RunPure decides PURE.* for the read-only entry points of all generated packages.
 func RunPure(c *core.Ctx) {
+	pureCtx = c
 	n := 0
 	report := func(src, con string, s *pureScan, p string) {
 		n++
